@@ -258,9 +258,14 @@ def run(ctx: Ctx) -> int:
         if r not in eff.cg.funcs:
             continue
         for origin, lvl in sorted(eff.mut.get(r, {}).items()):
-            if not origin.startswith("g:") or origin == DECLARED_DEFAULT:
+            if not origin.startswith("g:"):
                 continue
-            if lvl != TOP:
+            if origin == DECLARED_DEFAULT:
+                # the declared default of an action lives as long as the parser: a write to it or to anything
+                # inside it changes what every later call sees
+                if lvl not in (TOP, INTERIOR):
+                    continue
+            elif lvl != TOP:
                 # every tracked shared object is declared as an empty literal: an object inside it can only be
                 # written after something was stored into it, and that store is the TOP-level write reported here
                 continue
